@@ -12,7 +12,9 @@ PH = (math.pi / 2, math.pi / 4, -math.pi / 8, 0.3)
 
 META = {
     "rule": "states = (a) every gate sequence up to length L over the FULL exportable gate set (I X Y Z H S T P, CX CZ CP CCX, SWAP, barrier; "
-            "MCX / MCtrl(Z) with 3 controls on 4 qubits; 4 phases; all ordered qubit tuples) and (b) the compiled circuits of a program list "
+            "MCX / MCtrl(Z) with 3 controls on 4 qubits, MCX with one control and MCtrl(X) with 1..n-1 controls on 3 qubits; 4 phases; all ordered qubit "
+            "tuples), every 2-gate sequence additionally as a history on one object (first gate, export with every exporter, += second gate, export "
+            "again) and (b) the compiled circuits of a program list "
             "(aliased qubit names, constant qubits, dotted names). Each is exported with qiskit (circuit, gate), cirq (circuit, gate), sympy "
             "(gate, circuit; on its supported gates, short circuits) and OpenQASM 2/3 text (circuit, gate). Oracle: the unitary of the exported "
             "object (qiskit Operator, cirq.unitary with the calibrated bit-order permutation, sympy represent) equals the reference state-vector "
@@ -51,10 +53,12 @@ CONFIGS = {
         {"name": "n3cp", "n": 3, "names": ["cp", "h", "cx"], "L": 2},
         {"name": "n4mc", "n": 4, "names": ["mcx", "mcz", "x", "h"], "extra": "MC", "L": 2},
         {"name": "n3mctrlx", "n": 3, "names": ["mctrlx", "mcz", "x"], "L": 2},
+        {"name": "n3mcx1", "n": 3, "names": ["mcx1", "x", "h"], "L": 2},
     ],
     "thorough": [
         {"name": "n3mctrlx", "n": 3, "names": ["mctrlx", "mcz", "x", "h"], "L": 2},
         {"name": "n4mctrlx", "n": 4, "names": ["mctrlx", "mcz"], "L": 2},
+        {"name": "n3mcx1", "n": 3, "names": ["mcx1", "x", "h", "cx"], "L": 2},
         {"name": "n2full", "n": 2, "names": FULL, "extra": "PI", "L": 3},
         {"name": "n3full", "n": 3, "names": FULL + ["ccx_ordered"], "extra": "PI", "L": 2},
         {"name": "n3red", "n": 3, "names": RED3, "L": 3},
@@ -308,6 +312,15 @@ def run_case(case):
             rows += done
             for where, p in probs:
                 bad.append({"circuit": circs.text(A, idxs), "n": n, "export": where, "problem": p})
+            if len(seq) == 2 and not probs:
+                # history on one object: export everything, extend the circuit in place (+=, i.e. append_circuit), export again
+                qh = make(n, seq[:1])
+                check_exports(qh, n, do_sympy=False)
+                qh += make(n, seq[1:])
+                probs2, done2 = check_exports(qh, n, do_sympy=False)
+                rows += done2
+                for where, p in probs2:
+                    bad.append({"circuit": circs.text(A, idxs) + " (first gate, export, += second gate, export again)", "n": n, "export": where, "problem": p})
             if len(bad) >= 60:
                 break
         key = case["key"]
